@@ -1099,6 +1099,9 @@ def solve(objfun, x0, h=None, lh=None, prox_uh=None, argsf=(), argsh=(), argspro
         if not params("growing.reset_delta"):
             exit_info = ExitInformation(EXIT_INPUT_ERROR, "Growing: if resetting rho, must also reset delta")
 
+    if exit_info is None and not params("init.random_initial_directions") and npt > (n + 1) * (n + 2) // 2:
+        exit_info = ExitInformation(EXIT_INPUT_ERROR, "npt > (n+1)(n+2)/2 needs random initial directions (init.random_initial_directions)")
+
     # If we had an input error, quit gracefully
     if exit_info is not None:
         exit_flag = exit_info.flag
